@@ -82,6 +82,12 @@ def gen_cases(rng, tier):
           "ceil(x / 2) // 2", "h()", "exp(x)", "Exp(y) * x",
           "sgn(x - 3)", "sgn(-2) * x", "SGN(x) / 2", "sgn(3)/sgn(5)*3", "sgn(y - x) * sgn(x - y)", "2 ^ sgn(x)", "sgn(0) + sgn(1/3)"]
     texts += fn
+    # identifiers wrapped in underscores the way the parser's own placeholders (__lambda__, __in__) are: ordinary names, every
+    # one of them distinct from the name between the underscores
+    texts += ["__n__", "__n__ - n", "2*__n__ + n**2", "a.__n__.x", "a.#__n__ + a.#n", "__max__(2, 5)", "__f__(x) - f(x)", "_x_ + x", "__x + x__",
+              "__lambda - lambda", "__in__x + in"]
+    # (the two placeholders themselves, __lambda__ and __in__, are the parser's own: written by a user they read as lambda / in;
+    # they are outside the stream)
     # round with one and with two arguments on exact numbers: to the nearest multiple of 10^(-n), ties to the even multiple,
     # a NEGATIVE number of digits included (tens, hundreds); on symbols the call stays as it is
     texts += ["round(12345, -2)", "ROUND(12350, -2)", "round(12450, -2) + x", "round(-12350, -2)", "round(1987, -3)", "round(2 ^ 10, -1)",
